@@ -286,7 +286,7 @@ LABELS = {
     "C05.cep_keeps_multivalue": dict(props=["C05", "C02"], text="calls, `...` (they truncate a value list) and if-expressions never lose their parentheses"),
     "C01.double_minus_guard": dict(props=["C01", "C05"], text="the operand handed back for a unary minus is never itself a bare unary minus"),
     "C05.hanging_lhs_context": dict(props=["C05", "C02"], text="the context the hanging path gives to a left operand soundly describes `left operand of this operator` (in particular BinaryLHSExponent for `^`)"),
-    "C05.prefix_keeps_parens": dict(props=["C05", "C02"], text="format_prefix (both layout paths): a parenthesised prefix expression keeps its parentheses; operator tree preserved"),
+    "C05.prefix_keeps_parens": dict(props=["C05", "C02", "C01"], text="format_prefix (both layout paths): a parenthesised prefix expression keeps its parentheses (without them a table, function or string prefix does not parse, a call prefix is a different expression); operator tree preserved"),
     "C01.bracket_string_visible": dict(props=["C01"], text="format_expression: if the formatted expression begins with a long-bracket string token, the input was recognisable as such by is_brackets_string (through parentheses, type assertions, left operands)"),
     "C02.unary_operand_same": dict(props=["C02", "C05"], text="move_operand_below_comment (operand of a unary operator that is followed by a line comment goes to a new line): only trivia changes"),
     "C01.single_line.line_safe": dict(props=["C01", "C02", "C03"], text="format_expression_internal: no token of the formatted expression is printed behind a line comment on the same line (operators, operands, parentheses, type assertions; leaves assumed)"),
